@@ -114,7 +114,9 @@ def _run_spec(draw, observed=False):
             "prefix": draw(st.sampled_from([None, None, "a", "b", "s[1]"])), "fmt": draw(st.sampled_from(["tsv", "tsv", "parquet"])),
             "two_datasets": draw(st.sampled_from([False, True])),
             "dedup": draw(st.booleans()), "rollup": draw(st.sampled_from([True, True, False])),
-            "proteins": draw(st.sampled_from([False, False, True]))}
+            "proteins": draw(st.sampled_from([False, False, True])),
+            # the run may be a verbose one (`-v 3`: mokapot's loggers at DEBUG level); results and clean-up do not depend on it
+            "verbose": draw(st.sampled_from([False, False, True]))}
 
 
 @st.composite
@@ -206,9 +208,26 @@ def _assign(spec, ds, scores, dest, explicit_best=False):
         elif spec.get("best_feature_scores"):
             scs = None  # the documented default: every collection is ranked by its own best feature
         kw = {} if scs is None else {"scores": scs}  # (the argument is left out, as a caller relying on the default does)
-        mokapot.assign_confidence(dss, max_workers=1, **kw, descs=[True] * len(dss), eval_fdr=fdr, dest_dir=Path(dest),
-                                  prefixes=[spec["prefix"]] * len(dss), decoys=True, deduplication=spec["dedup"], do_rollup=spec["rollup"],
-                                  proteins=prot, peps_algorithm="verif_stub")
+        import logging
+
+        mlog = logging.getLogger("mokapot")
+        old_level, old_disable, old_prop = mlog.level, logging.root.manager.disable, mlog.propagate
+        null = logging.NullHandler()
+        if spec.get("verbose"):
+            # (the harness silences logging globally; a verbose run has it enabled, the records go to a null handler)
+            logging.disable(logging.NOTSET)
+            mlog.setLevel(logging.DEBUG)
+            mlog.addHandler(null)
+            mlog.propagate = False
+        try:
+            mokapot.assign_confidence(dss, max_workers=1, **kw, descs=[True] * len(dss), eval_fdr=fdr, dest_dir=Path(dest),
+                                      prefixes=[spec["prefix"]] * len(dss), decoys=True, deduplication=spec["dedup"], do_rollup=spec["rollup"],
+                                      proteins=prot, peps_algorithm="verif_stub")
+        finally:
+            mlog.setLevel(old_level)
+            mlog.removeHandler(null)
+            mlog.propagate = old_prop
+            logging.disable(old_disable)
 
 
 def _expected_files(spec):
